@@ -77,7 +77,7 @@ static void init(void)
 				}
 	if (mc_param("extras", 0)) {
 		static const struct kind ex[] = {
-			{1, 1, 1, 65536}, {2, 1, 0, 65535}, {1, 0, 1, 65535}, {0, 1, 1, 65536}, {9, 1, 1, 126},
+			{1, 1, 1, 65536}, {2, 1, 0, 65535}, {1, 0, 1, 65535}, {0, 1, 1, 65536}, {1, 1, 1, 125}, {2, 1, 0, 125}, {9, 1, 1, 125}, {0, 0, 0, 125},
 		};
 		for (i = 0; i < (int)(sizeof ex / sizeof ex[0]); i++) kinds[nkinds++] = ex[i];
 	}
